@@ -86,8 +86,11 @@ Proof.
   apply in_set_inv in Hc. destruct Hc as [->|[e [-> [<-|[]]]]]; reflexivity.
 Qed.
 
-Lemma host_check_total : forall h p, total4xx (host_check h p) = true.
-Proof. intros [] []; reflexivity. Qed.
+Lemma host_check_total : forall h p split, in_set split [EValue] = true -> total4xx (host_check h p split) = true.
+Proof.
+  intros [] [] split Hs; cbn; try reflexivity;
+    apply in_set_inv in Hs; destruct Hs as [->|[e [-> [<-|[]]]]]; reflexivity.
+Qed.
 
 (* ------------------------------------------------------------------ *)
 (** * query string, Accept-*, Range, max-age, lengths *)
